@@ -230,6 +230,23 @@ Theorem C09_flat_round_trip : forall n k l, length l = (k * n)%nat ->
 Proof. exact flat_round_trip. Qed.
 Print Assumptions C09_flat_round_trip.
 
+(* ---------- conversion helpers and copy constructors ---------- *)
+(* sparse_vector(x) / sparse_array(A) / sparse(x) hand back the object itself; sparse_vector(x, copy=True),
+   sparse_array(A, copy=True), SparseVector(sv), SparseLogicalVector(sl) append an equal object; by C09_frame and
+   C09_history_frame no later operation on the copy can change the original, nor the other way round *)
+Theorem C09_conversions : forall lg s i x, nth_error s i = Some x ->
+  xstep lg s (XOp (OConv CIdent i)) = (s, RSelf) /\
+  exists r, xstep lg s (XOp (OConv CCopy i)) = (s ++ [r], RNew r) /\
+            match x, r with
+            | OV c _, OV c' false => c' = c
+            | OL b, OL b' => b' = b
+            | OA rows _, OA rows' false => rows' = rows
+            | OB rows, OB rows' => rows' = rows
+            | _, _ => False
+            end.
+Proof. exact conv_spec. Qed.
+Print Assumptions C09_conversions.
+
 (* ---------- read-only ---------- *)
 Theorem C09_readonly_vector_rejects : forall lg s i c o,
   nth_error s i = Some (OV c true) ->
